@@ -7,7 +7,8 @@
   (`EnvRel`: `R` is one-to-one where it is defined, related ids hold schema objects that look alike to the resolver,
   `RNode`, and the Loader hands out related documents).  The simulation is DIRECTIONAL (`DirRel`): whenever the left run
   returns normally so does the right run, with related results — the node relation tolerates normal forms that only
-  remove reasons to fail (an empty `$vocabulary` read back as nil), so failures are not compared; a symmetric situation
+  remove reasons to fail (an empty `$defs` read back as nil beside `definitions`; until /repo c50c33e also an empty
+  `$vocabulary`, which MarshalJSON now writes), so failures are not compared; a symmetric situation
   (a tree and its clone) gets both directions by using the lemma twice.
   Inner fuels (`env.st.size + 2`) differ when the two stores differ in size: every loop lemma takes two fuels, and asks
   that the right run does not run out of fuel (which `ResNoFuel.lean` provides).
